@@ -445,6 +445,8 @@ func checkC43(c *Ctx) string {
 		excN = append(excN, strings.TrimPrefix(n, "core."))
 	}
 	sort.Strings(excN)
+	checkRecordHeaderCacheUnderWriteLock(c, "C43.5 K7 the lazily filled header cache is written under the write lock")
+	checkClosureSetConcurrentCoversThis(c, "C43.6 K5 a closure made concurrent makes its this concurrent")
 	return fmt.Sprintf("Lock discipline of shared values in package core (%d guarded accesses in %d functions and escaping literals). Guarded: SuObject.list/named/defval/readonly/version/clock/sorting by the object's rwMayLock "+
 		"(reads need RLock or Lock, writes — assignment, element store, append/copy/sort target, mutating method of the map, found by effect — need Lock); every field of suRec by the record's Lock (= its object's); element accesses of Shared.values by Shared's MayLock. "+
 		"Any call of Lock/RLock counts as acquisition whatever its result (MayLock-style `if x.Lock() { defer x.Unlock() }`), a non-deferred Unlock releases, deferred calls and deferred literals are given the state at their registration; "+
